@@ -2,7 +2,9 @@ package main
 
 import (
 	"fmt"
+	"go/constant"
 	"go/token"
+	"go/types"
 	"sort"
 	"strings"
 
@@ -238,6 +240,7 @@ func checkC15(c *Ctx, r *Report) {
 	r.rule("C15.R2", "every multi-octet word is written / read big-endian", 2)
 	r.rule("C15.R3", "decoder reads (offset, width, shift, mask) equal the TS 32.297 table", 6)
 	r.rule("C15.R4", "file shape: header, then per record header + exactly the payload", 1)
+	r.rule("C15.R5", "the file on disk is replaced by exactly the encoded octets (truncating write)", 1)
 
 	l := loadLayouts(c)
 	// header
@@ -289,6 +292,7 @@ func checkC15(c *Ctx, r *Report) {
 	}
 	// decoder vs table
 	c14Compare(c, r, l, true)
+	fileReplaced(c, r, "C15.R5")
 }
 
 func c15Order(r *Report, key string, segs []seg, c *Ctx, f *ssa.Function) {
@@ -541,5 +545,54 @@ func c14Wrap(c *Ctx, r *Report, l *layouts) {
 	})
 	if bad == 0 {
 		r.proven("C14.R2", fnKey(f)+"|narrow arithmetic", c.rel(f.Pos()), fmt.Sprintf("%d narrow arithmetic operations, none can wrap", n))
+	}
+}
+
+// fileReplaced: the destination file ends up holding exactly the encoded
+// octets.  The encoder assembles the whole file in a buffer; the step that
+// puts it on disk must replace the previous contents (os.WriteFile, os.Create,
+// or os.OpenFile with O_TRUNC and without O_APPEND) and hand over the whole
+// buffer.  Opening the existing file without truncation leaves the tail of a
+// longer previous file behind: the file-length member no longer equals the
+// file size and stale records follow the announced ones.
+func fileReplaced(c *Ctx, r *Report, rule string) {
+	f := c.fn("cdr/cdrFile", "CDRFile.Encoding")
+	n := 0
+	eachInstr(f, func(_ *ssa.BasicBlock, _ int, ins ssa.Instruction) {
+		call, ok := ins.(*ssa.Call)
+		if !ok {
+			return
+		}
+		obj := calleeObj(&call.Call)
+		if obj == nil || obj.Pkg() == nil {
+			return
+		}
+		name := obj.Pkg().Path() + "." + obj.Name()
+		key := fmt.Sprintf("%s|%s", fnKey(f), name)
+		switch name {
+		case "os.WriteFile", "io/ioutil.WriteFile", "os.Create":
+			n++
+			r.proven(rule, key, posOf(c, call), name+" replaces the previous contents of the file")
+		case "os.OpenFile":
+			n++
+			flags, isC := constInt(call.Call.Args[1])
+			// values of the os package constants on the analysed platform
+			var oTrunc, oAppend int64 = 0x200, 0x400
+			if o, ok := c.extObj("os", "O_TRUNC").(*types.Const); ok {
+				oTrunc, _ = constant.Int64Val(o.Val())
+			}
+			if o, ok := c.extObj("os", "O_APPEND").(*types.Const); ok {
+				oAppend, _ = constant.Int64Val(o.Val())
+			}
+			okT := isC && flags&oTrunc != 0 && flags&oAppend == 0
+			why := "the open flags are not constant"
+			if isC {
+				why = fmt.Sprintf("the open flags %#x lack O_TRUNC (or carry O_APPEND)", flags)
+			}
+			r.check(okT, rule, key, posOf(c, call), "opened with O_TRUNC", "the CDR file is opened for writing without being emptied ("+why+"): when a shorter file is written to a name that already holds a longer one, the old tail stays - the file length member no longer equals the file size and stale records follow the announced ones")
+		}
+	})
+	if n == 0 {
+		r.viol(rule, fnKey(f)+"|write", c.rel(f.Pos()), "the encoder does not put the buffer on disk with a recognised call (os.WriteFile / os.Create / os.OpenFile)")
 	}
 }
